@@ -96,6 +96,24 @@ func VerifSnapshot(L *LState) VerifSnap {
 	return s
 }
 
+// VerifQuiescent describes what is left on a state after its outermost protected call has
+// returned: nothing may be ("" = clean).
+func VerifQuiescent(L *LState) string {
+	switch {
+	case L.stack.Sp() != 0:
+		return fmt.Sprintf("%d call frames left on the call stack", L.stack.Sp())
+	case L.uvcache != nil:
+		return fmt.Sprintf("open upvalue left for register %d although no frame is alive", L.uvcache.index)
+	case L.G.CurrentThread != nil && L.G.CurrentThread != L.G.MainThread:
+		return "G.CurrentThread does not name the main thread"
+	case L.Parent != nil:
+		return "the main thread has a parent"
+	case L.Dead:
+		return "the main thread is dead"
+	}
+	return ""
+}
+
 // VerifDepth is the cheap part of the snapshot.
 func VerifDepth(L *LState) (sp, top int) { return L.stack.Sp(), L.reg.top }
 
